@@ -271,3 +271,55 @@ def run(u, r, ob, trace):
     if u['id'].startswith('vec.'):
         return run_history(u, r, ob, trace)
     return None
+
+
+# ---------------------------------------------------------------- recipe `convert` (units conv.<T>_from_<U>.<form>)
+def run_convert(u, r, ob, trace):
+    import conv
+    m = re.match(r'conv\.(\w+)_from_(\w+)\.(\w+)$', u['id'])
+    if not m or m.group(1) not in conv.TYPES or m.group(2) not in conv.TYPES:
+        return None
+    T, U, form = m.groups()
+    t, ut = conv.TYPES[T][0], conv.TYPES[U][0]
+    cex = vf.cex_inputs(trace)
+    raw = cex.get('g_srck', '2')
+    mm = re.match(r'(-?[0-9.eE+-]+)', raw)
+    val = mm.group(1) if mm else '2'
+    if U == 'bool': val = '1'
+    src = {
+        'ptr': 'const U* p = s.data(); v.emplace_back(p);', 'ptr_aliased': 'const U* p = s.data(); v.emplace_back(p);',
+        'array_lvalue': 'v.emplace_back(s);', 'array_rvalue': 'auto s2 = s; v.emplace_back(std::move(s2));',
+        'c_array': 'U c[4] = {s[0], s[1], s[2], s[3]}; v.emplace_back(c);', 'generator': 'U wide[8] = {s[0], U{}, s[1], U{}, s[2], U{}, s[3], U{}}; v.emplace_back(vf::StrideIt<U>{wide});',
+    }[form]
+    prog = '''#include "support.hpp"
+#include <cntgs/contiguous.hpp>
+#include <array>
+#include <cstdio>
+#include <cstring>
+using T = %(t)s; using U = %(ut)s;
+int main() {
+  cntgs::ContiguousVector<cntgs::FixedSize<T>> v{1, {4}};
+  std::array<U, 4> s{}; for (auto& x : s) x = static_cast<U>(%(val)s);
+  %(src)s
+  int bad = 0;
+  for (int k = 0; k < 4; ++k) { T want = static_cast<T>(s[k]); if (std::memcmp(&cntgs::get<0>(v[0])[k], &want, sizeof(T)) != 0) { std::printf("MISMATCH item %%d: stored object differs from T(source item)\\n", k); bad = 1; } }
+  return bad;
+}
+''' % dict(t=t, ut=ut, val=val, src=src)
+    with tempfile.TemporaryDirectory(dir=os.path.join(vf.BUILD)) as td:
+        open(os.path.join(td, 'replay.cpp'), 'w').write(prog)
+        c = subprocess.run(['g++', '-std=c++17', '-DNDEBUG', '-I' + os.path.join(vf.REPO, 'src'), '-I' + os.path.join(vf.VERIF, 'inst'), 'replay.cpp', '-o', 'replay'], cwd=td, capture_output=True, text=True)
+        if c.returncode != 0:
+            return {'reproduced': False, 'recipe': 'convert', 'note': 'replay program does not link/compile (hooks are not defined natively): ' + c.stderr[-300:]}
+        p = subprocess.run(['./replay'], cwd=td, capture_output=True, text=True, timeout=60)
+    mism = [l for l in p.stdout.split('\n') if l.startswith('MISMATCH')]
+    return {'reproduced': bool(mism), 'recipe': 'convert', 'inputs': {'stored_type': t, 'source_type': ut, 'source_form': form, 'source_value': val}, 'mismatches': mism}
+
+
+_prev_run = run
+
+
+def run(u, r, ob, trace):
+    if u['id'].startswith('conv.') and not u['id'].startswith('conv.tracked'):
+        return run_convert(u, r, ob, trace)
+    return _prev_run(u, r, ob, trace)
